@@ -770,7 +770,9 @@ pub(crate) fn sanitize(input: &str, case: Case) -> String {
 
 pub(crate) fn recase(input: &str, case: Case) -> (String, Option<String>) {
     let new = sanitize(input, case);
-    let rename = if new == input {
+    // The compiler NFC-normalizes identifiers, so a non-ASCII name must be
+    // given to serde explicitly even when it is already a valid identifier.
+    let rename = if new == input && input.is_ascii() {
         None
     } else {
         Some(input.to_string())
